@@ -199,7 +199,7 @@ def worker_narrow(rec, shard, nshards, l1, l2, seed):
 # ---------------------------------------------------------------------------------------------------
 # end-to-end realisations
 
-def realisations(tp, t):
+def realisations(tp, t, full=True):
     """Yield lists of rows (onset, hed) realising time point tp at time t; rows for time t-0.5 may be used for Delay."""
     texts = [group_text(e) for e in tp]
     yield "one-row", [(t, ", ".join(texts))]
@@ -210,6 +210,8 @@ def realisations(tp, t):
     # the tag name in another letter case (tag names are case-insensitive)
     if len(tp) == 1:
         yield "delay-shifted-case", [(t - 0.5, group_text(tp[0], "0.5 s", "DELAY" if tp[0][0] == "Onset" else "delay"))]
+        if not full:
+            return          # the realisations below only for histories of up to two time points
         # a unit symbol with an upper-case prefix that also exists in lower case (Ms is not ms); the number is 0.5 s divided by
         # the factor the schema file declares for the prefix
         yield "delay-shifted-prefix", [(t - 0.5, group_text(tp[0], f"{0.5 / MEGA!r} Ms"))]
@@ -238,7 +240,7 @@ def worker_e2e(rec, shard, nshards, length, two_marker_tps, all_positions, seed)
         hists += list(itertools.product(tps, repeat=L))
     for hi in core.shard_order(len(hists), shard, nshards, seed):
         hist = hists[hi]
-        per_tp = [list(realisations(tp, 2.0 * (k + 1))) for k, tp in enumerate(hist)]
+        per_tp = [list(realisations(tp, 2.0 * (k + 1), full=len(hist) <= 2)) for k, tp in enumerate(hist)]
         for combo in itertools.product(*per_tp):
             rows = []
             tp_rows = []   # for each time point the set of file row indices contributing
